@@ -220,7 +220,7 @@ TABLE["C13"] = {
 # whose theorems are proof obligations of a property
 TIES = {
     "C01": ["X86", "Install", "InstallGeneral"], "C13": ["X86", "A64Emit"], "C10": ["X86", "Install"], "C11": ["Alloc", "A64Install", "InstallGeneral"], "C12": ["Alloc", "Install", "Corollaries"],
-    "C02": ["Install"], "C03": ["Install", "Corollaries"], "C17": ["Install", "Corollaries"], "C15": ["A64", "A64Emit", "A64Install"], "C16": ["A32", "Corollaries"],
+    "C02": ["Install"], "C03": ["Install", "Corollaries"], "C17": ["Install", "Corollaries"], "C15": ["A64", "A64Emit", "A64Install", "A64Long"], "C16": ["A32", "Corollaries"],
 }
 
 # which properties a translator item matters to (prefix of "File.name" -> property ids); used to
